@@ -187,7 +187,12 @@ impl<T: Copy> Block for FailAt<T> {
         self.calls += 1;
         if self.calls == self.k {
             self.failed.store(true, Ordering::SeqCst);
-            return Err(Error::msg(FAIL_MARK));
+            // The kind of error value must make no difference to the runner.
+            return Err(match self.k % 3 {
+                0 => Error::Io(std::io::Error::new(std::io::ErrorKind::Interrupted, FAIL_MARK)),
+                1 => Error::Io(std::io::Error::other(FAIL_MARK)),
+                _ => Error::msg(FAIL_MARK),
+            });
         }
         let (i, tags) = self.src.read_buf()?;
         if i.is_empty() {
@@ -317,5 +322,68 @@ impl<T: Copy> Block for Lazy<T> {
         o.produce(n, &tags);
         i.consume(n);
         Ok(BlockRet::Again)
+    }
+}
+
+
+/// Takes a batch, keeps it for a while ("a background process may still
+/// produce": `Pending`, or the state-change `Again`), then emits it. Its
+/// `eof()` is true once its input has ended and is drained AND it holds
+/// nothing any more ("done, and will never return any more data", as the
+/// trait documents it): the multi-threaded runner asks `eof()` after every
+/// wait verdict, also one on a full output.
+pub struct Hold<T: Copy> {
+    src: ReadStream<T>,
+    dst: WriteStream<T>,
+    k: usize,
+    arm: usize,
+    left: usize,
+    held: Vec<T>,
+    again: bool,
+}
+
+impl<T: Copy> Hold<T> {
+    pub fn new(src: ReadStream<T>, k: usize, arm: usize, again: bool) -> (Self, ReadStream<T>) {
+        let (dst, r) = rustradio::stream::new_stream();
+        (Self { src, dst, k, arm, left: 0, held: Vec::new(), again }, r)
+    }
+}
+impl<T: Copy> BlockName for Hold<T> {
+    fn block_name(&self) -> &str {
+        "Hold"
+    }
+}
+impl<T: Copy> BlockEOF for Hold<T> {
+    fn eof(&mut self) -> bool {
+        self.held.is_empty() && self.src.eof()
+    }
+}
+impl<T: Copy> Block for Hold<T> {
+    fn work(&mut self) -> Result<BlockRet> {
+        let busy = if self.again { BlockRet::Again } else { BlockRet::Pending };
+        if !self.held.is_empty() {
+            if self.left > 0 {
+                self.left -= 1;
+                return Ok(busy);
+            }
+            let mut o = self.dst.write_buf()?;
+            if o.is_empty() {
+                return Ok(BlockRet::WaitForStream(&self.dst, 1));
+            }
+            let n = self.held.len().min(o.len());
+            o.slice()[..n].copy_from_slice(&self.held[..n]);
+            o.produce(n, &[]);
+            self.held.drain(..n);
+            return Ok(BlockRet::Again);
+        }
+        let (i, _tags) = self.src.read_buf()?;
+        if i.is_empty() {
+            return Ok(BlockRet::WaitForStream(&self.src, 1));
+        }
+        let n = i.len().min(self.k);
+        self.held.extend_from_slice(&i.slice()[..n]);
+        i.consume(n);
+        self.left = self.arm;
+        Ok(busy)
     }
 }
